@@ -76,13 +76,14 @@ func (s *sessionMetadatasState) Create(id string, clientID string, connectedAt i
 		Peer:        s.peer,
 		LastAdded:   stamp,
 	}
-	err := s.set(session)
-	if err != nil {
-		return err
-	}
+	// the broadcast is built first: an entry that cannot be encoded must not enter the store
 	buf, err := proto.Marshal(&api.StateBroadcastEvent{
 		SessionMetadatas: []*api.SessionMetadatas{&session},
 	})
+	if err != nil {
+		return err
+	}
+	err = s.set(session)
 	if err != nil {
 		return err
 	}
@@ -107,13 +108,14 @@ func (s *sessionMetadatasState) Delete(id string) error {
 		return nil
 	}
 	session.LastDeleted = stampAfter(crdt.GetLastEntryUpdate(&session))
-	err := s.set(session)
-	if err != nil {
-		return err
-	}
+	// the broadcast is built first: an entry that cannot be encoded must not enter the store
 	buf, err := proto.Marshal(&api.StateBroadcastEvent{
 		SessionMetadatas: []*api.SessionMetadatas{&session},
 	})
+	if err != nil {
+		return err
+	}
+	err = s.set(session)
 	if err != nil {
 		return err
 	}
